@@ -176,3 +176,73 @@ def allocator_step(ctx):
         r2.status = "inconclusive"
         r2.notes.append("solver returned unknown")
     return b.results
+
+
+def allocator_seed(ctx):
+    """from_existing_ids: after a directory name was processed, the stored next offset of its level
+    is above that name's offset - so the first id handed out after a restart is new"""
+    b = Builder(ctx, "range_allocator-{impl#1}-from_existing_ids.", "RangeAllocator::from_existing_ids", {})
+    E, q = b.E, ctx.q
+    r = b.mk("allocator-seed", "RangeAllocator::from_existing_ids: for every directory name it is given, the next offset stored for the "
+             "name's level ends up greater than the name's own offset (it is raised to offset + 1 unless it is already larger), so "
+             "next_for_level never returns an id that already exists at start-up")
+    if not r:
+        return b.results
+    r.bounds = f"one loop iteration from an arbitrary map state (loop unrolled {ctx.k}x, each iteration checked); HashMap get / insert opaque"
+    ins = oblig.events(E, r"HashMap::<u32, u32>::insert$")
+    gets = oblig.events(E, r"HashMap::<u32, u32>::get|HashMap::get")
+    unw = oblig.events(E, r"Option::<u32>::unwrap_or$|Option::unwrap_or$")
+    parses = oblig.events(E, r"SegmentId::from_str$")
+    if not (oblig.need_anchor(r, ins, "HashMap::insert") and oblig.need_anchor(r, unw, "get(..).copied().unwrap_or(0)")
+            and oblig.need_anchor(r, parses, "SegmentId::from_str")):
+        return b.results
+    span_c = sym.crate_consts().get(("engine::core::segment::segment_id", "LEVEL_SPAN"))
+    if span_c is None:
+        r.status = "inconclusive"
+        r.notes.append("LEVEL_SPAN not found")
+        return b.results
+    r.nontrivial = True
+    for ev in ins:
+        same = [u for u in unw if u.layer == ev.layer]
+        par = [p_ for p_ in parses if p_.layer == ev.layer]
+        if not same or not par or len(ev.args) < 3:
+            r.status = "inconclusive"
+            r.notes.append("iteration structure not recognised")
+            return b.results
+        nxt = E.sym(same[0].site, "u32")
+        idv = E.sym(par[0].site + ":Some.0.id", "u32")
+        cand = E.to_term(ev.args[2], "u32")
+        lvl = sym.describe(ev.args[1])
+        if cand is None or not re.match(r"SegmentId::level#\d+", lvl) or sym.describe(same[0].args[1]) != "0":
+            r.status = "violated"
+            r.witness = {"what": "the value stored is not keyed by the name's level / the default offset is not 0",
+                         "span": f"{ev.span[0]}:{ev.span[1]}" if ev.span else None, "call": ev.func[:80], "path": [], "model": {}}
+            return b.results
+        # head of this iteration = the parse succeeded
+        head = z3.And(par[0].reach, z3.BitVec(f"disc({par[0].site})", 64) == 1)
+        off = z3.URem(idv, z3.BitVecVal(span_c[0], 32))
+        try:
+            # (a) what is inserted is offset + 1; (b) afterwards the stored offset exceeds the name's offset
+            res, model = oblig.int_check(q, ev.reach, cand != off + 1)
+            r.queries += 1
+            after = z3.If(ev.reach, cand, nxt)
+            res2, model2 = oblig.int_check(q, head, z3.ULE(after, off))
+            r.queries += 1
+        except oblig.IntEncodingError as e:
+            r.status = "inconclusive"
+            r.notes.append(f"not encodable: {e}")
+            return b.results
+        for rs, md, what in ((res, model, "the offset stored for a name is not its own offset + 1"),
+                             (res2, model2, "after a name was processed the stored next offset of its level is not above the name's offset: "
+                                            "next_for_level can hand out an id that already exists")):
+            if rs == z3.sat:
+                r.status = "violated"
+                r.witness = {"what": what + f" (id {md.get(str(idv), 0)}, stored before {md.get(str(nxt), 0)})",
+                             "span": f"{ev.span[0]}:{ev.span[1]}" if ev.span else None, "call": ev.func[:80], "path": [],
+                             "model": {k: str(v) for k, v in md.items() if "disc(" not in k}}
+                return b.results
+            if rs != z3.unsat:
+                r.status = "inconclusive"
+                r.notes.append("solver returned unknown")
+                return b.results
+    return b.results
